@@ -287,8 +287,10 @@ func RunC09(c *core.Ctx) {
 	mk := func(s string) json.RawMessage { return json.RawMessage(s) }
 	for i, cls := range classes {
 		walk := []json.RawMessage{
-			mk(`{"n":"connect","c":"c1","u":"u-c1","will":{"on":false}}`), mk(`{"n":"connect","c":"c2","u":"u-c2","will":{"on":false}}`),
+			mk(`{"n":"connect","c":"c1","u":"u-c1","will":{"on":false}}`),
+			mk(`{"n":"connect","c":"c2","u":"u-c2","will":{"on":true,"k":"kAll","w":["a"],"syn":"ok","retain":false,"p":"will-of-c2"}}`),
 			mk(`{"n":"sub","c":"c1","k":"kAll","w":["a"],"syn":"ok","last":0,"win":"none"}`),
+			mk(`{"n":"sub","c":"c2","k":"kAll","w":["a","b"],"syn":"ok","last":0,"win":"none"}`),
 			mk(`{"n":"pub","c":"c2","k":"kAll","w":["a"],"syn":"ok","me0":false,"ttl":3600,"via":"","retain":false,"qos":1,"p":"before"}`),
 			mk(fmt.Sprintf(`{"n":"hostile","c":"c2","cls":%q}`, cls)),
 			mk(`{"n":"pub","c":"c1","k":"kAll","w":["a"],"syn":"ok","me0":false,"ttl":0,"via":"","retain":false,"qos":1,"p":"after"}`),
